@@ -560,6 +560,22 @@ def align_variable_names_with_convention(
                 for refnode in _get_uses_of(node, partial_tree, source):
                     renamings[refnode].add(substitute)
 
+    # "def emit(): ..." and "emit = str" bind the same variable, but the conventions for them differ
+    definition_names = {
+        node.name
+        for node in renamings
+        if isinstance(node, (ast.FunctionDef, ast.AsyncFunctionDef, ast.ClassDef))
+    }
+    assigned_names = {
+        node.id
+        for node in renamings
+        if isinstance(node, ast.Name) and isinstance(node.ctx, ast.Store)
+    }
+    for node, substitutes in renamings.items():
+        name = node.id if isinstance(node, ast.Name) else getattr(node, "name", None)
+        if name in definition_names & assigned_names:
+            substitutes.add(name)
+
     blacklisted_names = (
         tracing.get_imported_names(ast_tree)
         | tracing.get_defined_names(ast_tree)
